@@ -185,6 +185,11 @@ def configs(tier, seed):
                         cfg["id0"] = 7 if len(out) % 2 else 0
                         cfg["max_states"] = 4000 if tier == "quick" else 50000
                         out.append(cfg)
+    # many workers ask for work before any result returns: three and more brackets open at the same time
+    for name, T in (("custom3", 8), ("custom", 7), ("geo1-4-2", 8)):
+        for mode in ("min", "max"):
+            out.append(dict(sys=name, mode=mode, W=T, T=T, F=0, seed=seed, perms={}, use_mra=True, scratch=False, flood=True,
+                            max_states=1500 if tier == "quick" else 20000))
     # DEHB: structural subset
     for rf in ([(3, 1), (2, 2), (1, 4)], [(2, 1), (1, 3)]):
         for mode in ("min", "max"):
